@@ -89,7 +89,13 @@ func (f *File) Write(p []byte) (int, error) {
 			w.Fired.ErrWriteErr = true
 		}
 	}
-	f.data = append(f.data, p[:n]...)
+	// write at the file offset: an existing longer content keeps its tail
+	for len(f.data) < f.wpos {
+		f.data = append(f.data, 0)
+	}
+	over := copy(f.data[f.wpos:], p[:n])
+	f.data = append(f.data, p[over:n]...)
+	f.wpos += n
 	f.written += n
 	if f.role == roleOut && f != Stdout {
 		w.Files[f.name] = f.data
